@@ -362,6 +362,11 @@ fn run_one(mode: &str, root_s: &str, form: &str, loc: &str, outcome: &str, o: &m
         "dots" => (None, PathBuf::from(format!("{}/outer/../dest/.", root_s))),
         "rel" => (Some(root.clone()), PathBuf::from("dest")),
         "reldot" => (Some(root.join("outer")), PathBuf::from("../dest")),
+        // dest spelled with nothing but dots (cwd = the dest directory, resp. a child of it)
+        "dot" => (Some(root.join("dest")), PathBuf::from(".")),
+        "dotdot" => (Some(root.join("dest/sub")), PathBuf::from("..")),
+        "dotsdot" => (Some(root.join("dest")), PathBuf::from("./.")),
+        "subup" => (Some(root.join("dest")), PathBuf::from("sub/..")),
         _ => return "bad-op".to_string(),
     };
     if let Some(c) = &cwd {
@@ -503,6 +508,11 @@ fn run_seq(root_s: &str, form: &str, toks: &str, o: &mut Oracle) -> String {
         "dots" => (None, PathBuf::from(format!("{}/outer/../dest/.", root_s))),
         "rel" => (Some(root.clone()), PathBuf::from("dest")),
         "reldot" => (Some(root.join("outer")), PathBuf::from("../dest")),
+        // dest spelled with nothing but dots (cwd = the dest directory, resp. a child of it)
+        "dot" => (Some(root.join("dest")), PathBuf::from(".")),
+        "dotdot" => (Some(root.join("dest/sub")), PathBuf::from("..")),
+        "dotsdot" => (Some(root.join("dest")), PathBuf::from("./.")),
+        "subup" => (Some(root.join("dest")), PathBuf::from("sub/..")),
         _ => return "bad-op".to_string(),
     };
     if let Some(c) = &cwd {
@@ -904,7 +914,7 @@ pub fn run(ctx: &mut Ctx, _eng: &mut dyn Engine) {
     let workers = std::thread::available_parallelism().map(|n| n.get()).unwrap_or(4).min(16);
     ctx.rule = format!(
         "every Content-Location = prefix (9 kinds of the property text) + up to {} segments from the 8 kinds, enumerated exhaustively, x \
-         {{complete, error, interrupted}} (depth 5: one of the three per location, in rotation), dest spelled abs|slash|dots in rotation; structured escape attempts (prefix x lead x 0..5 climbs of 4 spellings x 8 targets); {} seeded random strings over a larger token set; \
+         {{complete, error, interrupted}} (depth 5: one of the three per location, in rotation), dest spelled abs|slash|dots in rotation; structured escape attempts (prefix x lead x 0..5 climbs of 4 spellings x 8 targets), once with dest spelled abs|slash|dots and once with dest spelled by dots only (. | .. | ./. | sub/.. relative to the dest directory or a child); {} seeded random strings over a larger token set; \
          histories (2 writers x 6 colliding/nested locations x every sequence of 3 (quick) / 4 (thorough) calls from {{open, complete, error}} on either writer, plus seeded longer histories with up to 3 writers, 20 locations, all five calls, any order; all five dest spellings); a relative-dest phase; {} full Sender->Receiver sessions; each against the real ObjectWriterFSBuilder in a \
          fresh sandbox, tree snapshot before / after open / at the end vs the Lean model's predicted effects; oracle = every effect strictly \
          below dest/; non-trivial = the op had a filesystem effect or the location has a non-Normal component after the strip \
@@ -989,6 +999,54 @@ pub fn run(ctx: &mut Ctx, _eng: &mut dyn Engine) {
                     k += 1;
                 }
             }
+        }
+    }
+    let res = execute(&jobs, workers);
+    record(ctx, &jobs, res);
+
+    // 1b'. the same escape attempts with dest spelled by DOTS ONLY ( . | .. | ./. | sub/.. , cwd = the dest directory or a
+    //      child of it): a check by lexical normalisation + starts_with(dest) degenerates there (normalised dest = "")
+    ctx.case("attacks-dot-dest");
+    let dot_forms = ["dot", "dotdot", "dotsdot", "subup"];
+    let mut jobs: Vec<Job> = Vec::new();
+    let mut k = 0usize;
+    for pre in PREFIXES.iter() {
+        for lead in leads.iter() {
+            for ups in 0..=5usize {
+                for climb in climbs.iter() {
+                    if ups == 0 && *climb != ".." {
+                        continue;
+                    }
+                    let root = root_for(idx);
+                    let targets = [
+                        "vq7n".to_string(),
+                        "outer/canary.txt".to_string(),
+                        "top.txt".to_string(),
+                        "dest/old.txt".to_string(),
+                        "dest/sub/vq7n".to_string(),
+                        format!("{}/outer/canary.txt", root),
+                        format!("{}/top.txt", &root[1..]),
+                        format!("{}/outer/vq7abs", root),
+                    ];
+                    let target = &targets[k % targets.len()];
+                    let mut loc = format!("{}{}", pre, lead);
+                    for _ in 0..ups {
+                        loc.push_str(climb);
+                        loc.push('/');
+                    }
+                    loc.push_str(target);
+                    jobs.push(mk_job("run", &root, dot_forms[(k / 8) % 4], &loc, outcomes[(k / 3) % 3], "attack-dot"));
+                    idx += 1;
+                    k += 1;
+                }
+            }
+        }
+    }
+    for (i, loc) in ["x:../top.txt", "http://h//l1/l2/l3/dropped2.txt", "../outer/canary.txt", "file:///hello", "a/b.txt"].iter().enumerate() {
+        for (j, f) in dot_forms.iter().enumerate() {
+            let root = root_for(idx);
+            jobs.push(mk_job("run", &root, f, loc, outcomes[(i + j) % 3], "attack-dot"));
+            idx += 1;
         }
     }
     let res = execute(&jobs, workers);
